@@ -70,6 +70,11 @@ def run(case, target=None, extra_callbacks=(), step_cap=1500):
     def snap(system):
         snaps.append((len(system), len(system.events), float(system.t[-1])))
     r.a, r.P, r.evs, r.snaps = a, P, evs, snaps
+    for tgt in case.get("pre_targets", []):
+        # the span is covered by several integrate() calls, all of them with the events monitored
+        r.err = traj.run_integrate(a, np.float64(tgt), step_limit=step_cap, events=evs, callbacks=[snap] + list(extra_callbacks))
+        if r.err is not None:
+            return r
     r.err = traj.run_integrate(a, target, step_limit=step_cap, events=evs, callbacks=[snap] + list(extra_callbacks))
     return r
 
